@@ -140,6 +140,8 @@ def m_surface(ctx, case):
             tc = rng.choice((5, 6, 7, 8))
             me = radsb.tc_surface(tc, mov, status, trk, rng.randrange(2), rng.randrange(2), rng.getrandbits(17), rng.getrandbits(17))
             hx = "%028X" % bits.es_frame(rng.choice((17, 18)), rng.randrange(8), rng.getrandbits(24), me)
+            if trk % 9 == 0:
+                hx = hx.lower()
             es = radsb.movement_kt(mov)
             et = trk * 360.0 / 128.0 if status else None
             for src in (False, True):
